@@ -71,7 +71,10 @@ Under(n)    == Len(stk) < n
 PopPush(n, okIdx, res, extraErr) ==
   IF Under(n) THEN {Fault("stack underflow")}
   ELSE LET bad == {i \in 1..n : ~okIdx[i]} IN
+       \* operands are popped and converted one at a time, top first: a checked conversion error of an operand popped
+       \* BEFORE the ill-represented one ends the line first (`cf | td["foo"]` with td["foo"] = "")
        IF bad # {} THEN {Fault("operand " \o ToString(CHOOSE i \in bad : TRUE) \o " from top has representation " \o Top(stk, CHOOSE i \in bad : TRUE).t)}
+                        \cup (IF \E i \in 1..n : i \notin bad /\ MayFailConv(Top(stk, i)) /\ \E j \in bad : i < j THEN {Err(Drop(stk, n))} ELSE {})
        ELSE {Run(pc + 1, Drop(stk, n) \o res)}
             \cup (IF extraErr \/ \E i \in 1..n : MayFailConv(Top(stk, i)) THEN {Err(Drop(stk, n))} ELSE {})
 
